@@ -29,7 +29,7 @@ PID = "C07"
 # ------------------------------------------------------------------------------------
 
 
-def cat_dim_transforms(rng, v, malformed=False, allow_tins=True):
+def cat_dim_transforms(rng, v, malformed=False, allow_tins=True, strand=False):
     """view insertions on v + a transforms dict for its dimension"""
     valid = gen.valid_cat_ids(v)
     t = {}
@@ -51,7 +51,9 @@ def cat_dim_transforms(rng, v, malformed=False, allow_tins=True):
         if rng.random() < 0.05:
             t["order"]["element_ids"] = None
     elif r < 0.5:
-        t["order"] = {"type": rng.choice(["payload_order", "bogus", "univariate_measure"])}
+        # keywords that mean "payload order" for this kind of partition
+        t["order"] = {"type": rng.choice(["payload_order", "bogus"] if strand else
+                                         ["payload_order", "bogus", "univariate_measure"])}
     elif r < 0.53:
         t["order"] = {"element_ids": list(valid)[::-1]}          # no type: payload order
     if rng.random() < 0.3:
@@ -97,8 +99,8 @@ def gen_case(rng, k, malformed_rate=0.06):
     if strand:
         v = make_var(rng, "r", ["cat", "cat", "cat", "mr"])
         variables, aliases = [v], ["r"]
-        transforms["rows_dimension"] = (cat_dim_transforms(rng, v, malformed) if v.kind == "cat"
-                                        else mr_dim_transforms(rng, v))
+        transforms["rows_dimension"] = (cat_dim_transforms(rng, v, malformed, strand=True)
+                                        if v.kind == "cat" else mr_dim_transforms(rng, v))
     else:
         rk = rng.random()
         if rk < 0.1:
@@ -168,8 +170,10 @@ CANONICAL_WORDS = ("top", "bottom")
 
 def classify_ids(m):
     src = m.view
+    if all("id" in d for d in src if isinstance(d, dict)):
+        return "other"
     for d in src:
-        if not isinstance(d, dict) or "id" in d:
+        if not isinstance(d, dict):
             continue
         a = d.get("anchor")
         if isinstance(a, str) and a not in CANONICAL_WORDS:
